@@ -187,7 +187,7 @@ Proof. intros H. rewrite (guard_eq _ _ _ _ H). unfold guarded. destruct (od && e
 Lemma py_eq_none_l d : py_eq PNone d = is_none d.
 Proof. destruct d; reflexivity. Qed.
 Lemma py_eq_none_r v : py_eq v PNone = is_none v.
-Proof. destruct v as [|[]| | | | | | |]; reflexivity. Qed.
+Proof. destruct v as [|[]| | | | | | | |]; reflexivity. Qed.
 
 Lemma equals_default_none_value p : equals_default p PNone = default_is_none p.
 Proof.
